@@ -366,6 +366,22 @@ func classifyUseX(c *core.Ctx, inf *types.Info, par map[ast.Node]ast.Node, id *a
 		case *ast.StarExpr:
 			top = x
 			continue
+		case *ast.UnaryExpr:
+			// *(&v) is v: an address that is dereferenced on the spot (a pointer argument folded back into its user)
+			if x.Op == token.AND && x.X == top {
+				q := par[x]
+				for {
+					pe, ok := q.(*ast.ParenExpr)
+					if !ok {
+						break
+					}
+					q = par[pe]
+				}
+				if se, ok := q.(*ast.StarExpr); ok {
+					top = se
+					continue
+				}
+			}
 		}
 		break
 	}
